@@ -747,17 +747,120 @@ verif_log_enabled()
         old(r)@.len() >= 2 && le16(old(r)@) != id ==> res is Err,
 //@@ end
 
+// ---- [MS-OVBA] 2.3.4.2 dir stream, written over the *suffix* t of the stream that starts at the record in question
+/// 2.3.4.2.1: PROJECTSYSKIND (10 bytes) [PROJECTCOMPATVERSION, id 0x004A, 10 bytes] PROJECTLCID (10) PROJECTLCIDINVOKE (10)
+/// PROJECTCODEPAGE (id u16, size u32, CodePage u16): the stream suffix that starts at PROJECTCODEPAGE
+pub open spec fn dir_codepage_rec(s: Seq<u8>) -> Seq<u8> {
+    if le16(s.skip(10)) == 0x004A { s.skip(10).skip(10).skip(20) } else { s.skip(10).skip(20) }
+}
+pub open spec fn dir_codepage(s: Seq<u8>) -> int { le16(dir_codepage_rec(s).subrange(6, 8)) }
+
+/// variable record at the head of t: id u16, size u32, payload[size]
+pub open spec fn vr_size(t: Seq<u8>) -> int { le32(t.skip(2)) }
+pub open spec fn vr_payload(t: Seq<u8>) -> Seq<u8> { t.subrange(6, 6 + vr_size(t)) }
+pub open spec fn vr_rest(t: Seq<u8>) -> Seq<u8> { t.skip(6 + vr_size(t)) }
+
+/// 2.3.4.2.3.2 MODULE record at the head of t: MODULENAME 0x19, MODULENAMEUNICODE 0x47, MODULESTREAMNAME 0x1A (+ unicode 0x32),
+/// MODULEDOCSTRING 0x1C (+ unicode 0x48) are variable records; then MODULEOFFSET: id 0x31, size u32, TextOffset u32
+pub open spec fn mod_name(t: Seq<u8>) -> Seq<u8> { vr_payload(t) }
+pub open spec fn mod_stream_name(t: Seq<u8>) -> Seq<u8> { vr_payload(vr_rest(vr_rest(t))) }
+pub open spec fn mod_offset_rec(t: Seq<u8>) -> Seq<u8> { vr_rest(vr_rest(vr_rest(vr_rest(vr_rest(vr_rest(t)))))) }
+pub open spec fn mod_text_offset(t: Seq<u8>) -> int { le32(mod_offset_rec(t).skip(2).skip(4)) }
+/// after TextOffset: MODULEHELPCONTEXT (id, 8 bytes), MODULECOOKIE (id, 6 bytes), MODULETYPE id (0x21 / 0x22)
+pub open spec fn mod_flags(t: Seq<u8>) -> Seq<u8> { mod_offset_rec(t).skip(2).skip(4).skip(4).skip(2).skip(8).skip(2).skip(6).skip(2) }
+/// each of MODULETYPE / MODULEREADONLY 0x25 / MODULEPRIVATE 0x28 is followed by a reserved u32, then the next id; the Terminator 0x2B
+/// and its reserved u32 end the MODULE record
+pub open spec fn mod_flags_rest(u: Seq<u8>) -> Seq<u8>
+    decreases u.len()
+{
+    if u.len() < 6 { u } else if le16(u.skip(4)) == 0x002B { u.skip(4).skip(2).skip(4) } else { mod_flags_rest(u.skip(4).skip(2)) }
+}
+pub open spec fn mod_rest(t: Seq<u8>) -> Seq<u8> { mod_flags_rest(mod_flags(t)) }
+/// suffix at which the j-th MODULE record starts
+pub open spec fn nth_mod(t0: Seq<u8>, j: int) -> Seq<u8>
+    decreases j
+{
+    if j <= 0 { t0 } else { mod_rest(nth_mod(t0, j - 1)) }
+}
+/// 2.3.4.2.3: (id 0x000F consumed by the caller) size u32, Count u16, PROJECTCOOKIE (8 bytes), MODULE records
+pub open spec fn modules_count(s: Seq<u8>) -> int { le16(s.skip(4)) }
+pub open spec fn modules_first(s: Seq<u8>) -> Seq<u8> { s.skip(4).skip(2).skip(8) }
+spec fn module_ok(t: Seq<u8>, m: Module, cp: u16) -> bool {
+    m.text_offset as int == mod_text_offset(t) && m.name@ == decoded(cp, mod_name(t)) && m.stream_name@ == decoded(cp, mod_stream_name(t))
+}
+
 //@@ fn src/vba.rs read_dir_information props=C18 entry ret=res
 //@@ sig
+    ensures
+        //# C18.dir_codepage
+        res matches Ok(enc) ==> enc.cp as int == dir_codepage(old(stream)@),
+//@@ body
+    let ghost s0 = stream@;
+//@@ before /if read_u16\(&stream\[0\.\.2\]\)/
+    proof {
+        // the id of the optional PROJECTCOMPATVERSION record is read without a length check
+        //# C06.dir_compat_id_beyond_end
+        assert(stream@.len() >= 2);
+        assert(stream@ == s0.skip(10));
+        assert(le16(stream@.subrange(0, 2)) == le16(s0.skip(10)));
+    }
+//@@ before /let encoding = /
+    proof {
+        // PROJECTCODEPAGE: `stream[6..8]` without a length check
+        //# C06.dir_codepage_beyond_end
+        assert(stream@.len() >= 8);
+        assert(stream@ == dir_codepage_rec(s0));
+    }
 //@@ end
 
 //@@ fn src/vba.rs read_modules props=C18 entry ret=res
 //@@ sig
+    ensures
+        //# C18.module_count
+        res matches Ok(mods) ==> mods@.len() == modules_count(old(stream)@),
+        //# C18.module_name_stream_offset
+        res matches Ok(mods) ==> (forall|j: int| 0 <= j < mods@.len() ==>
+            module_ok(nth_mod(modules_first(old(stream)@), j), #[trigger] mods@[j], encoding.cp)),
+        //# C18.modules_consumed
+        res matches Ok(mods) ==> final(stream)@ == nth_mod(modules_first(old(stream)@), mods@.len() as int),
+//@@ body
+    let ghost s0 = stream@;
+    let ghost t0 = modules_first(s0);
 //@@ loop 0 it
-        invariant true,
+        invariant
+            it.seq().len() == module_len, module_len == modules_count(s0), t0 == modules_first(s0),
+            modules@.len() == it.index@,
+            stream@ == nth_mod(t0, it.index@ as int),
+            forall|j: int| 0 <= j < modules@.len() ==> module_ok(nth_mod(t0, j), #[trigger] modules@[j], encoding.cp),
+//@@ before /let name = check_variable_record/
+        let ghost t = stream@;
+        let ghost kk = it.index@ as int;
+        let ghost mods0 = modules@;
 //@@ loop 1
-            invariant true,
+            invariant_except_break
+                mod_flags_rest(u0) == mod_flags_rest(stream@),
+            ensures
+                mod_flags_rest(u0) == stream@.skip(4),
             decreases stream@.len(),
+//@@ before /loop \{/
+        let ghost u0 = stream@;
+        proof { assert(u0 == mod_flags(t)); }
+//@@ before /\*stream = &stream\[4\.\.\]/#2of4
+            let ghost u = stream@;
+            proof {
+                // reserved u32 of MODULETYPE / MODULEREADONLY / MODULEPRIVATE is skipped without a length check
+                //# C06.module_flags_reserved_beyond_end
+                assert(stream@.len() >= 4);
+            }
+//@@ after /modules\.push\(Module \{[^;]*;/
+        proof {
+            assert(stream@ == mod_rest(t));
+            assert(nth_mod(t0, kk + 1) == mod_rest(nth_mod(t0, kk)));
+            assert(module_ok(t, modules@[kk], encoding.cp));
+            assert forall|j: int| 0 <= j < modules@.len() implies module_ok(nth_mod(t0, j), #[trigger] modules@[j], encoding.cp) by {
+                if j < kk { assert(modules@[j] == mods0[j]); }
+            }
+        }
 //@@ end
 
 } // verus!
